@@ -42,3 +42,22 @@ def g0 (frames : List (List Byte)) : G :=
 def holds (frames : List (List Byte)) (evs : List Ev) (outs : List Out) : Bool :=
   conforms evs outs (g0 frames)
 end SpecRx
+
+namespace SpecRx
+open Rx
+/-- Oracle for C17 (inbound): a lone frame `f` whose wire size reaches the limit, or unterminated
+    input of at least `max` bytes: every poll is pending until `max` bytes have arrived; the first
+    poll after that reports `overflow` (later polls are unconstrained). Below the limit: `holds`. -/
+def boundsConforms (max : Nat) : List Ev → List Out → (arrived : Nat) → Bool
+  | [], outs, _ => outs.isEmpty
+  | .arrive b :: t, outs, a => boundsConforms max t outs (a + b.length)
+  | .close :: t, outs, a => boundsConforms max t outs a
+  | .poll :: t, o :: outs, a =>
+    if a ≥ max then o == .err .overflow    -- and nothing is demanded afterwards
+    else o == .pending && boundsConforms max t outs a
+  | .poll :: _, [], _ => false
+
+def holdsBounds (max : Nat) (frames : List (List Byte)) (evs : List Ev) (outs : List Out) : Bool :=
+  if (enc frames).length < max then holds frames evs outs
+  else boundsConforms max evs outs 0
+end SpecRx
